@@ -494,8 +494,12 @@ def check_validation(ctx):
 # ------------------------------------------------------------------------------------------------ accountant
 
 def acc_state(a):
-    t = a.total()
-    return (len(a), tuple(a.spent_budget), float(t[0]), float(t[1]), a.slack)
+    try:
+        t = a.total()
+        t = (float(t[0]), float(t[1]))
+    except Exception as e:  # noqa - an accountant that recorded an invalid spend cannot even report its total
+        t = ("total() raises " + type(e).__name__, "")
+    return (len(a), tuple(a.spent_budget), t[0], t[1], a.slack)
 
 
 def check_accountant(ctx):
